@@ -6,6 +6,7 @@ from vlib import flow, lean, repo
 from vlib.common import REPO, SCRATCH, log
 from checks import corpusgen
 from checks import C05_lib as L
+from checks import C05_adjust
 
 MANIFEST = {
     "text": "Lean model of the lmplz pipeline in exact rationals, in two descriptions: the streaming algorithms transcribed "
@@ -21,7 +22,8 @@ MANIFEST = {
     "technique": "Lean 4 proof (streaming algorithm = set-based specification) + differential correspondence with the real tool",
 }
 
-REQUIRED = ["KV.C05.ngram_set", "KV.C05.adjust_stream_eq", "KV.C05.adjust_stream_eq_corpus", "KV.C05.stats_eq",
+REQUIRED = ["KV.C05.estimate_eq_spec", "KV.C05.estimate_eq_spec_tree", "KV.C05.collapse_block_perm", "KV.C05.collapse_stream_eq",
+            "KV.C05.prune_stream_fixed", "KV.C05.prune_stream_unfixed_false", "KV.C05.ngram_set", "KV.C05.adjust_stream_eq", "KV.C05.adjust_stream_eq_corpus", "KV.C05.stats_eq",
             "KV.C05.stats_eq_corpus", "KV.C05.prune_exact", "KV.C05.prune_exact_top", "KV.C05.written_set",
             "KV.C05.trueCount_textbook", "KV.C05.adjCount_textbook", "KV.C05.pruned_eq_false_iff",
             "KV.C05.stats_eq_stream", "KV.C05.stats_eq_tree", "KV.C05.stats_eq_unfixed_false", "KV.C05.flush_adjusted_tree",
@@ -213,9 +215,17 @@ def run(ctx):
                         "model and lmplz disagree: ") + f2[0][2][:300]
                 ctx.violation(what, replay_obj(small, lmplz, f2), no_input=False)
                 found = True
+        # ---- in-process stream: the real AdjustCounts::Run vs KV.KN.adjust on arbitrary sorted tables
+        try:
+            found |= bool(C05_adjust.adjust_stream(ctx, flags, 400 if ctx.tier == "quick" else 6000))
+        except Exception as ex:          # harness does not build / died: a broken correspondence
+            import traceback
+            problems.append("adjust stream could not run: %s" % traceback.format_exc()[-1500:])
     finally:
         shutil.rmtree(wd, ignore_errors=True)
-    ctx.cov["rule"] = ("lmplz stream: generated corpora (Zipfian vocabularies 3..400 types, repeated sentences, empty lines, "
+    ctx.cov["rule"] = ("adjust stream: suffix-sorted n-gram tables (corpus-derived, synthetic well-formed, boundary shapes) through "
+                       "the real AdjustCounts::Run in-process (two block sizes) vs the model and vs the set-based definition; "
+                       "lmplz stream: generated corpora (Zipfian vocabularies 3..400 types, repeated sentences, empty lines, "
                        "tab/CR/NUL separators, special tokens under --skip_symbols, a frequent last-introduced word) x order 1..6 "
                        "x --prune vectors (incl. unigram thresholds) x --limit_vocab_file x --interpolate_unigrams x "
                        "--discount_fallback variants x --renumber; a case is non-trivial when the corpus has >= 6 tokens; "
